@@ -525,7 +525,46 @@ Definition oracle_check (c : case) : list (Z * Z) :=
 
 Definition check_oracle := failing oracle_check.
 Definition check_C05 := failing (fun c => codes_in 61 62 (oracle_check c)).
-Definition check_C10 := failing (fun c => codes_in 61 64 (oracle_check c)).
+(* C10, first clause: a payment for an NFT on THIS chain gets the NFT's owner at record time as its recipient, and is
+   refused when the NFT has no owner.  The owners are the environment's (mints and transfers of the history, applied in
+   the begin phase of a block), the token is the one the MESSAGE names, all 256 bits of it.
+     65 a record for an NFT on this chain was accepted and is pending at the end of its block with recipients other than
+        [(owner of that token when the block began, 1)]
+     66 a record for an NFT on this chain was accepted although nobody owns that token *)
+Definition c10_one (chain : bytes) (owners : list (Z * Z * Z)) (sn : snap) (m : smsg) : list Z :=
+  match m with
+  | MRecord _ tid req _ _ ch contract tok =>
+      if negb (bytes_eqb ch chain) then [] else
+      match owner_get owners (hex_to_address contract) (hex_to_hash tok) with
+      | None => [66]
+      | Some o =>
+          if o =? 0 then [66] else
+          if forallb (fun x : Z * Z * utxr =>
+               if (fst (fst x) =? tid) && bytes_eqb (u_req (snd x)) req
+               then recips_eqb (u_recips (snd x)) [mkRecip o 1] else true) (s_utxrs (sn_s sn))
+          then [] else [65]
+      end
+  | _ => []
+  end.
+Fixpoint c10_walk (chain : bytes) (k : Z) (owners : list (Z * Z * Z)) (pend : list (Z * smsg))
+    (es : list event) (os : list iobs) : list (Z * Z) :=
+  match es, os with
+  | e :: es', o :: os' =>
+      match e, o with
+      | EvBegin envs, _ =>
+          let owners' := fold_left (fun l x => match x with ES (EnvNftSet c t w) => owner_set l c t w | _ => l end) envs owners in
+          c10_walk chain (k + 1) owners' pend es' os'
+      | EvTx _ msgs, ITx COk _ => c10_walk chain (k + 1) owners (pend ++ map (fun m => (k, m)) msgs) es' os'
+      | EvEnd _, IEnd _ _ (Some sn) =>
+          concat (map (fun x : Z * smsg => map (fun code => (fst x, code)) (c10_one chain owners sn (snd x))) pend)
+          ++ c10_walk chain (k + 1) owners [] es' os'
+      | _, _ => c10_walk chain (k + 1) owners pend es' os'
+      end
+  | _, _ => []
+  end.
+Definition c10_check (c : case) : list (Z * Z) :=
+  c10_walk (s_chain (c_s (cs_init c))) 0 (s_owners (c_s (cs_init c))) [] (cs_events c) (cs_obs c).
+Definition check_C10 := failing (fun c => codes_in 61 64 (oracle_check c) ++ c10_check c).
 (* 78 in the first block of a chain restarted from an export (height H), a prevote or a vote was accepted although its
       round id is not the round of H, or a prevote although H is past the prevote window: the restarted chain must
       publish the round of its first block, whatever the alignment of H with the rounds *)
